@@ -298,3 +298,69 @@ def c04_r6(ctx):
         ctx.viol('%s|feedback-poll-skipped' % nx.path, polls[0][1]['at'],
                  'Iterate::next can return an element without having drained the feedback channel in this activation: while a large round '
                  'is being re-emitted nobody reads the bounded feedback edge, the body\'s End blocks on it and the loop deadlocks', None)
+
+
+@rule('C10', 'R8', 'IterationStateLock generation protocol: lock makes an even generation odd, unlock makes it even and wakes all, waiters wait while gen < requested')
+def c10_r8(ctx):
+    facts = ctx.facts
+    lk = facts.fn(LOCK + '::lock')
+    ul = facts.fn(LOCK + '::unlock')
+    wu = facts.fn(LOCK + '::wait_for_update')
+
+    def increments(fn):
+        out = []
+        sym = q.sym(facts, fn)
+        for bi, blk in enumerate(fn.blocks):
+            if blk['cleanup']:
+                continue
+            for s in blk['s']:
+                if s['k'] == 'assign' and s['rv']['r'] == 'bin' and s['rv']['op'] in ('AddWithOverflow', 'Add'):
+                    out.append((bi, s, render(strip(sym.rvalue(s['rv'])))))
+        return out
+    inc = increments(lk)
+    ctx.inst('IterationStateLock::lock', {'increments': [d for _, _, d in inc]})
+    if len(inc) != 1 or '1_usize' not in inc[0][2]:
+        ctx.viol('%s|increment' % lk.path, lk.at, 'lock() must advance the generation by exactly one at one site', None)
+    else:
+        dnf = q.cond_of_block(facts, lk, inc[0][0])
+        ok = q.cond_has(dnf, lambda a: a[0] == 'cmp' and 'Rem(' in (a[1] + a[2]) and '2_usize' in (a[1] + a[2]) and '0_usize' in (a[1], a[2]) and a[3] == frozenset(['=']))
+        ctx.inst('IterationStateLock::lock|guard', {'conditions': show_dnf(dnf)})
+        if not ok:
+            ctx.viol('%s|guard' % lk.path, inc[0][1]['at'],
+                     'lock() advances the generation on a path not guarded by "generation is even" (conditions: %s): a second lock() of the same '
+                     'round (every local replica calls it) would make it even again and release the waiting Start blocks early' % show_dnf(dnf), None)
+    inc = increments(ul)
+    na = [(bi, t) for bi, t in ul.calls() if (t['callee'].get('path') or '') == 'std::sync::Condvar::notify_all']
+    ctx.inst('IterationStateLock::unlock', {'increments': [d for _, _, d in inc], 'notify_all': [t['at'] for _, t in na]})
+    if len(inc) != 1 or '1_usize' not in inc[0][2]:
+        ctx.viol('%s|increment' % ul.path, ul.at, 'unlock() must advance the generation by exactly one', None)
+    else:
+        dnf = q.cond_of_block(facts, ul, inc[0][0])
+        if any(c for c in dnf):
+            ctx.viol('%s|conditional' % ul.path, inc[0][1]['at'], 'unlock() advances the generation only under %s' % show_dnf(dnf), None)
+    if not na or not all(ul.dominates(na[0][0], r) for r in ul.return_blocks()):
+        ctx.viol('%s|no-wakeup' % ul.path, ul.at, 'unlock() can return without notify_all: Start blocks waiting for the new state would sleep forever', None)
+    if na and inc and not ul.dominates(inc[0][0], na[0][0]):
+        ctx.viol('%s|wakeup-before-increment' % ul.path, na[0][1]['at'], 'unlock() wakes the waiters before advancing the generation', None)
+    # wait_for_update: wait_while(|r| *r < generation)
+    from .timeorder import closure_cmp, cmp_rel_of
+    ww = [(bi, t) for bi, t in wu.calls() if (t['callee'].get('path') or '').endswith('Condvar::wait_while')]
+    if not ww:
+        raise AnchorMissing('wait_for_update does not use Condvar::wait_while')
+    cl = facts.closures_of(wu)
+    okw = False
+    for g in cl:
+        d, neg = closure_cmp(facts, g)
+        if d is None:
+            continue
+        rel, a, b = cmp_rel_of(d, lambda x: 'generation' in x or 'arg1' in x)
+        # rel is "requested generation REL current": waiting while current < requested  <=> requested > current
+        if rel is not None and neg:
+            rel = frozenset({'<', '=', '>'} - set(rel))
+        ctx.inst('wait_for_update|predicate', {'waits while requested {%s} current' % (''.join(sorted(rel)) if rel else '?'): True, 'operands': [a, b]})
+        if rel == frozenset(['>']):
+            okw = True
+    if not okw:
+        ctx.viol('%s|predicate' % wu.path, wu.at,
+                 'wait_for_update must block exactly while the lock generation is below the requested one: `<=` never wakes for the current '
+                 'round, `>`/`!=` lets elements of the next round through before the state is installed', None)
